@@ -594,6 +594,13 @@ func diffSignature(s *Spec, k, dv, rv string) string {
 		// ... and for map values in the (j5.ext.v1.field) of the entry's value field, which nothing reads
 		return "schema-diff:map:" + s.Kind + ":rules:dropped"
 	}
+	if (s.Arr || s.Map) && k == "opt" && dv == "1" && rv == "0" {
+		// one class per container, whatever the item type: `?` on an array / map is accepted and not carried
+		if s.Arr {
+			return "schema-diff:array:opt:1->0"
+		}
+		return "schema-diff:map:opt:1->0"
+	}
 	if s.Map && k == "lr" && rv == "~" {
 		// one class whatever the value type: the list rules are written on the entry's value field
 		return "schema-diff:map:value-list-rules:dropped"
